@@ -12,14 +12,15 @@ use futures::future::BoxFuture;
 use futures::{FutureExt, SinkExt, StreamExt};
 use parking_lot::Mutex;
 use serde_json::{json, Value};
-use std::collections::{BTreeMap, HashMap};
+use std::collections::{BTreeMap, HashMap, HashSet};
 use std::num::NonZeroUsize;
 use std::sync::Arc;
 use std::time::Duration;
 use swimos::agent::agent_lifecycle::HandlerContext;
 use swimos::agent::agent_model::AgentModel;
 use swimos::agent::event_handler::{BoxEventHandler, EventHandler, HandlerActionExt, Sequentially};
-use swimos::agent::lanes::{CommandLane, MapLane, SupplyLane, ValueLane};
+use swimos::agent::lanes::http::{HttpRequestContext, Response, UnitResponse};
+use swimos::agent::lanes::{CommandLane, DemandLane, DemandMapLane, MapLane, SimpleHttpLane, SupplyLane, ValueLane};
 use swimos::agent::stores::{MapStore, ValueStore};
 use swimos::agent::{lifecycle, projections, AgentLaneModel};
 use swimos_api::address::RelativeAddress;
@@ -70,6 +71,11 @@ pub struct TestAgent {
     cmd: CommandLane<String>,
     vstore: ValueStore<i32>,
     mstore: MapStore<i32, i32>,
+    // stateless lanes (never persisted) and the HTTP lane; declared last so that the ids of the lanes above stay
+    // what they were
+    dem: DemandLane<i32>,
+    dmap: DemandMapLane<i32, i32>,
+    http: SimpleHttpLane<i32>,
 }
 
 #[derive(Clone)]
@@ -85,6 +91,7 @@ fn sorted<M: IntoIterator<Item = (i32, i32)>>(m: M) -> Vec<(i32, i32)> {
 ///   set <lane> <n> | upd <lane> <k> <v> | rem <lane> <k> | clr <lane> | sup <n>
 ///   send <node> <lane> <n>        (overwritable ad hoc command)
 ///   get <lane>                    (logs the value read)
+///   cue dem | cuek dmap <k>       (cue the demand lane / a key of the demand-map lane)
 ///   stop
 fn instruction(context: HandlerContext<TestAgent>, ins: &str) -> Option<BoxEventHandler<'static, TestAgent>> {
     let parts: Vec<&str> = ins.split_whitespace().collect();
@@ -209,6 +216,25 @@ fn instruction(context: HandlerContext<TestAgent>, ins: &str) -> Option<BoxEvent
                 .effect(move || log(json!({"e": "sent", "node": node2, "lane": "in", "v": n, "ow": !queued, "via": "commander"})))
                 .followed_by(ViaCommander { node, n, queued, inner: None })
                 .boxed()
+        }
+        // cue dem: the demand lane computes a value (on_cue) and sends it to every linked remote
+        "cue" => match parts.get(1).copied()? {
+            "dem" => context
+                .effect(|| log(json!({"e": "cuei", "lane": "dem"})))
+                .followed_by(context.cue(TestAgent::DEM))
+                .boxed(),
+            _ => return None,
+        },
+        // cuek dmap <k>: the demand-map lane computes the entry for k (on_cue_key)
+        "cuek" => {
+            let k = num(2)?;
+            match parts.get(1).copied()? {
+                "dmap" => context
+                    .effect(move || log(json!({"e": "cuei", "lane": "dmap", "k": k})))
+                    .followed_by(context.cue_key(TestAgent::DMAP, k))
+                    .boxed(),
+                _ => return None,
+            }
         }
         "stop" => context.stop().boxed(),
         _ => return None,
@@ -423,6 +449,70 @@ impl TestLifecycle {
         context.effect(move || log(json!({"e": "lane", "lane": "mstore", "op": "clr", "prev": sorted(prev)})))
     }
 
+    // ---- demand lane: the value of `val` at the moment the lane is asked
+    #[on_cue(dem)]
+    pub fn on_cue_dem(&self, context: HandlerContext<TestAgent>) -> impl swimos::agent::event_handler::HandlerAction<TestAgent, Completion = i32> {
+        context.get_value(TestAgent::VAL).map(|v: i32| {
+            log(json!({"e": "cue", "lane": "dem", "v": v}));
+            v
+        })
+    }
+
+    // ---- demand-map lane: a view of `map` (keys = its keys, entry = its entry)
+    #[keys(dmap)]
+    pub fn dmap_keys(&self, context: HandlerContext<TestAgent>) -> impl swimos::agent::event_handler::HandlerAction<TestAgent, Completion = HashSet<i32>> {
+        context.get_map(TestAgent::MAP).map(|m: HashMap<i32, i32>| {
+            let mut keys: Vec<i32> = m.keys().copied().collect();
+            keys.sort();
+            log(json!({"e": "keys", "lane": "dmap", "keys": keys}));
+            m.keys().copied().collect::<HashSet<i32>>()
+        })
+    }
+
+    #[on_cue_key(dmap)]
+    pub fn dmap_cue_key(&self, context: HandlerContext<TestAgent>, key: i32) -> impl swimos::agent::event_handler::HandlerAction<TestAgent, Completion = Option<i32>> {
+        context.get_entry(TestAgent::MAP, key).map(move |v: Option<i32>| {
+            log(json!({"e": "cuekey", "lane": "dmap", "k": key, "v": v}));
+            v
+        })
+    }
+
+    // ---- HTTP lane: GET / HEAD read `val`, PUT / POST set it, DELETE only answers; the request id travels in the URI
+    #[on_get(http)]
+    pub fn http_get(&self, context: HandlerContext<TestAgent>, http: HttpRequestContext) -> impl swimos::agent::event_handler::HandlerAction<TestAgent, Completion = Response<i32>> {
+        let id = uri_id(&http);
+        context.get_value(TestAgent::VAL).map(move |v: i32| {
+            log(json!({"e": "hhand", "lane": "http", "m": "get", "id": id, "v": v}));
+            Response::from(v)
+        })
+    }
+
+    #[on_put(http)]
+    pub fn http_put(&self, context: HandlerContext<TestAgent>, http: HttpRequestContext, value: i32) -> impl swimos::agent::event_handler::HandlerAction<TestAgent, Completion = UnitResponse> {
+        let id = uri_id(&http);
+        context
+            .effect(move || log(json!({"e": "hhand", "lane": "http", "m": "put", "id": id, "v": value})))
+            .followed_by(context.set_value(TestAgent::VAL, value))
+            .followed_by(context.value(UnitResponse::default()))
+    }
+
+    #[on_post(http)]
+    pub fn http_post(&self, context: HandlerContext<TestAgent>, http: HttpRequestContext, value: i32) -> impl swimos::agent::event_handler::HandlerAction<TestAgent, Completion = UnitResponse> {
+        let id = uri_id(&http);
+        context
+            .effect(move || log(json!({"e": "hhand", "lane": "http", "m": "post", "id": id, "v": value})))
+            .followed_by(context.set_value(TestAgent::VAL, value))
+            .followed_by(context.value(UnitResponse::default()))
+    }
+
+    #[on_delete(http)]
+    pub fn http_delete(&self, context: HandlerContext<TestAgent>, http: HttpRequestContext) -> impl swimos::agent::event_handler::HandlerAction<TestAgent, Completion = UnitResponse> {
+        let id = uri_id(&http);
+        context
+            .effect(move || log(json!({"e": "hhand", "lane": "http", "m": "delete", "id": id})))
+            .followed_by(context.value(UnitResponse::default()))
+    }
+
     #[on_command(cmd)]
     pub fn on_cmd(&self, context: HandlerContext<TestAgent>, value: &String) -> impl EventHandler<TestAgent> {
         let text = value.clone();
@@ -433,6 +523,14 @@ impl TestLifecycle {
             .effect(move || log(json!({"e": "cmdh", "lane": "cmd", "v": t2})))
             .followed_by(Sequentially::new(handlers))
     }
+}
+
+/// the `id` parameter of the request URI (`/node?lane=http&id=7`), -1 if there is none
+fn uri_id(http: &HttpRequestContext) -> i64 {
+    http.uri()
+        .query()
+        .and_then(|q| q.split('&').find_map(|p| p.strip_prefix("id=").and_then(|v| v.parse::<i64>().ok())))
+        .unwrap_or(-1)
 }
 
 // ------------------------------------------------------------------------------------ store
@@ -648,7 +746,7 @@ struct Instance {
     stop_tx: Option<trigger::Sender>,
     task: tokio::task::JoinHandle<Result<(), String>>,
     link_rx: mpsc::Receiver<LinkRequest>,
-    _http_tx: mpsc::Sender<swimos_api::agent::HttpLaneRequest>,
+    http_tx: mpsc::Sender<swimos_api::agent::HttpLaneRequest>,
 }
 
 fn start_instance(cfg: &Value, store: &Option<RecordingStore>) -> Instance {
@@ -698,7 +796,7 @@ fn start_instance(cfg: &Value, store: &Option<RecordingStore>) -> Instance {
         None => task.run_agent().map(|r| r.map_err(|e| e.to_string())).boxed(),
     };
     let task = tokio::spawn(fut);
-    Instance { att_tx, stop_tx: Some(stop_tx), task, link_rx, _http_tx: http_tx }
+    Instance { att_tx, stop_tx: Some(stop_tx), task, link_rx, http_tx }
 }
 
 fn counting(inner: ByteReader) -> CountingReader {
@@ -719,6 +817,8 @@ struct World {
     targets: Vec<Target>,
     store: Option<RecordingStore>,
     cfg: Value,
+    /// HTTP requests whose response promise has not completed yet
+    http_pending: Vec<(i64, swimos_api::agent::HttpResponseReceiver)>,
 }
 
 impl World {
@@ -743,11 +843,41 @@ impl World {
         }
     }
 
+    /// Look at the response promises of the outstanding HTTP requests (nothing to do, and nothing logged, when no
+    /// HTTP request was ever sent).
+    fn poll_http(&mut self) {
+        if self.http_pending.is_empty() {
+            return;
+        }
+        let mut still = vec![];
+        for (id, mut rx) in std::mem::take(&mut self.http_pending) {
+            match (&mut rx).now_or_never() {
+                Some(Ok(resp)) => {
+                    let mut e = json!({"e": "hresp", "id": id, "status": resp.status_code.as_u16(), "body": txt(resp.payload.as_ref())});
+                    for h in resp.headers.iter() {
+                        let name = h.name.as_str().to_lowercase();
+                        let value = h.value.as_str().unwrap_or("?").to_string();
+                        if name.contains("length") {
+                            e["clen"] = json!(value);
+                        } else if name.contains("type") {
+                            e["ctype"] = json!(value);
+                        }
+                    }
+                    log(e);
+                }
+                Some(Err(())) => log(json!({"e": "hdropped", "id": id})),
+                None => still.push((id, rx)),
+            }
+        }
+        self.http_pending = still;
+    }
+
     async fn settle(&mut self) {
         for _ in 0..4 {
             settle().await;
             self.serve_links();
         }
+        self.poll_http();
         self.check_closed();
         let mut g = LOG.lock();
         if g.last().map(|e| e["e"] != "settled").unwrap_or(true) {
@@ -893,6 +1023,8 @@ impl World {
                     None => log(json!({"e": "hang", "where": "stop"})),
                 }
             }
+            // the instance is gone: every outstanding HTTP response promise is resolved one way or the other
+            self.poll_http();
         }
     }
 }
@@ -900,7 +1032,7 @@ impl World {
 async fn run_script(case: &Value) {
     let cfg = case.get("cfg").cloned().unwrap_or(json!({}));
     let store = if cfg.get("store").and_then(|v| v.as_bool()).unwrap_or(false) { Some(RecordingStore::default()) } else { None };
-    let mut w = World { inst: Some(start_instance(&cfg, &store)), remotes: HashMap::new(), targets: vec![], store, cfg: cfg.clone() };
+    let mut w = World { inst: Some(start_instance(&cfg, &store)), remotes: HashMap::new(), targets: vec![], store, cfg: cfg.clone(), http_pending: vec![] };
     w.settle().await;
     for a in case["acts"].as_array().unwrap() {
         let k = a["k"].as_str().unwrap();
@@ -968,6 +1100,60 @@ async fn run_script(case: &Value) {
                             log(json!({"e": "req_blocked", "r": r}));
                         }
                     }
+                }
+                if !nosettle {
+                    w.settle().await;
+                }
+            }
+            "http" => {
+                // an HTTP request for a lane of the agent, the way the server's HTTP front end hands it to the agent
+                // runtime: {"method", "lane" (absent: no lane parameter), "body", "id"}
+                let id = a.get("id").and_then(|v| v.as_i64()).unwrap_or(-1);
+                let method = a.get("method").and_then(|v| v.as_str()).unwrap_or("GET");
+                let lane = a.get("lane").and_then(|v| v.as_str());
+                let body = a.get("body").and_then(|v| v.as_str()).unwrap_or("");
+                let nosettle = a.get("nosettle").and_then(|v| v.as_bool()).unwrap_or(false);
+                let mut e = json!({"e": "hreq", "id": id, "method": method, "body": body});
+                if let Some(l) = lane {
+                    e["lane"] = json!(l);
+                }
+                if nosettle {
+                    e["ns"] = json!(true);
+                }
+                log(e);
+                let uri = match lane {
+                    Some(l) => format!("{}?lane={}&id={}", NODE, l, id),
+                    None => format!("{}?id={}", NODE, id),
+                };
+                let m = match method {
+                    "GET" => swimos_api::http::Method::GET,
+                    "HEAD" => swimos_api::http::Method::HEAD,
+                    "PUT" => swimos_api::http::Method::PUT,
+                    "POST" => swimos_api::http::Method::POST,
+                    "DELETE" => swimos_api::http::Method::DELETE,
+                    _ => swimos_api::http::Method::OPTIONS,
+                };
+                let request = swimos_api::http::HttpRequest {
+                    method: m,
+                    version: swimos_api::http::Version::HTTP_1_1,
+                    uri: uri.parse::<swimos_api::http::Uri>().expect("bad uri"),
+                    headers: vec![],
+                    payload: Bytes::from(body.as_bytes().to_vec()),
+                };
+                let (req, rx) = swimos_api::agent::HttpLaneRequest::new(request);
+                let sent = match w.inst.as_ref() {
+                    Some(inst) => match inst.http_tx.try_send(req) {
+                        Ok(()) => Ok(()),
+                        Err(mpsc::error::TrySendError::Full(_)) => Err(true),
+                        Err(mpsc::error::TrySendError::Closed(_)) => Err(false),
+                    },
+                    None => Err(false),
+                };
+                match sent {
+                    Ok(()) => w.http_pending.push((id, rx)),
+                    // no agent instance, or its request channel is closed: the request never reached it
+                    // (full = the harness sent more requests back to back than its own channel holds)
+                    Err(full) => log(json!({"e": "hdropped", "id": id, "unsent": true, "full": full})),
                 }
                 if !nosettle {
                     w.settle().await;
@@ -1082,7 +1268,12 @@ async fn run_script(case: &Value) {
     if let Some(inst) = w.inst.take() {
         inst.task.abort();
         let _ = inst.task.await;
+        if !w.http_pending.is_empty() {
+            // (only when HTTP requests are still outstanding: the end of the script aborts the instance)
+            log(json!({"e": "aborted"}));
+        }
     }
+    w.poll_http();
 }
 
 fn run_case(case: &Value) -> Value {
